@@ -1,7 +1,9 @@
 package main
 
 import (
+	"bytes"
 	"strconv"
+	"time"
 	. "verifharness/internal/core"
 
 	"fmt"
@@ -32,6 +34,9 @@ func durMarshal(d int64) (res *string, panicked bool) {
 	if err != nil {
 		return nil, true
 	}
+	if m := durWatch.next(b); m != "" {
+		marshalAliased = m
+	}
 	if b == nil {
 		return nil, false
 	}
@@ -50,12 +55,47 @@ func durUnmarshal(s *string) (res *int64) {
 	if s != nil {
 		text = []byte(*s)
 	}
-	if err := d.UnmarshalText(text); err != nil {
+	err := d.UnmarshalText(text)
+	// the same text into a variable that already holds a value (a reused struct field, a second
+	// document decoded into the same object): the result must not depend on what was there
+	for _, before := range []saml.Duration{saml.Duration(90 * time.Second), saml.Duration(-1), durReused} {
+		d2 := before
+		err2 := d2.UnmarshalText(text)
+		if (err == nil) != (err2 == nil) || (err == nil && d2 != d) {
+			durReuseMismatch = fmt.Sprintf("text %q: into a zero variable (%v, err=%v), into one holding %d (%v, err=%v)", text, int64(d), err, int64(before), int64(d2), err2)
+		}
+	}
+	if err != nil {
 		return nil
 	}
+	durReused = d
 	v := int64(d)
 	return &v
 }
+
+// durReused is the last successfully parsed value; durReuseMismatch records a parse whose result depended
+// on the previous content of the receiver (cleared by whoever reports it).
+var (
+	durReused        saml.Duration
+	durReuseMismatch string
+)
+
+// aliasWatch keeps the bytes returned by an earlier MarshalText alive and reports if a later call changed them.
+type aliasWatch struct {
+	prev, want []byte
+}
+
+func (w *aliasWatch) next(b []byte) string {
+	msg := ""
+	if w.prev != nil && !bytes.Equal(w.prev, w.want) {
+		msg = fmt.Sprintf("an earlier MarshalText result changed from %q to %q when a later value was marshalled", w.want, w.prev)
+	}
+	w.prev, w.want = b, append([]byte{}, b...)
+	return msg
+}
+
+var durWatch, timeWatch aliasWatch
+var marshalAliased string
 
 func c15Durations(c *Ctx) {
 	gm := c.Group("durm", []string{"DurationModel"}, "mcase", "check_mcases")
@@ -65,13 +105,13 @@ func c15Durations(c *Ctx) {
 		text, _ := durMarshal(d)
 		rt := durUnmarshal(text)
 		c.Count("dur_marshal/" + class)
-		c.Add(gm, &Case{
+		c.Add(gm, flagHistory(&Case{
 			Key:     map[string]string{"op": "duration_roundtrip", "class": class},
 			Input:   map[string]any{"d": fmt.Sprint(d)},
 			Obs:     map[string]any{"text": text, "roundtrip": rt},
 			Term:    fmt.Sprintf("{| mc_d := %s; mc_text := %s; mc_rt := %s |}", emit.Z(d), emit.OptStr(text), emit.OptZ(rt)),
 			Trivial: d == 0,
-		})
+		}))
 	}
 	addU := func(s *string, class string) {
 		res := durUnmarshal(s)
@@ -81,13 +121,13 @@ func c15Durations(c *Ctx) {
 			k = "ok"
 		}
 		c.Count("dur_unmarshal_result/" + k)
-		c.Add(gu, &Case{
+		c.Add(gu, flagHistory(&Case{
 			Key:     map[string]string{"op": "duration_parse", "class": class},
 			Input:   map[string]any{"text": s},
 			Obs:     map[string]any{"result": res},
 			Term:    fmt.Sprintf("{| uc_text := %s; uc_res := %s |}", emit.OptStr(s), emit.OptZ(res)),
 			Trivial: res == nil && s != nil && !strings.Contains(*s, "P"),
-		})
+		}))
 	}
 
 	// boundary classes
@@ -172,13 +212,13 @@ func c15Durations(c *Ctx) {
 		res := durUnmarshal(&txt)
 		ok := res != nil && *res == want
 		c.Count("dur_unmarshal/known-components")
-		c.Add(gu, &Case{
+		c.Add(gu, flagHistory(&Case{
 			Key:        map[string]string{"op": "duration_parse", "class": "known-components"},
 			Input:      map[string]any{"text": txt, "denotes_ns": want},
 			Obs:        map[string]any{"result": res},
 			Term:       fmt.Sprintf("{| uc_text := %s; uc_res := %s |}", emit.OptStr(&txt), emit.OptZ(res)),
 			ImplSpecOK: &ok,
-		})
+		}))
 	}
 	nu := 1500
 	if c.Thorough() {
@@ -346,4 +386,20 @@ func mutateString(c *Ctx, s string, alphabet string) string {
 		}
 	}
 	return string(b)
+}
+
+// flagHistory marks a case whose result depended on history: a receiver that already held a value, or an
+// earlier result whose bytes changed under its holder.
+func flagHistory(cs *Case) *Case {
+	if durReuseMismatch != "" {
+		f := false
+		cs.ImplSpecOK, cs.Note = &f, "result depends on the previous content of the receiver: "+durReuseMismatch
+		durReuseMismatch = ""
+	}
+	if marshalAliased != "" {
+		f := false
+		cs.ImplSpecOK, cs.Note = &f, marshalAliased
+		marshalAliased = ""
+	}
+	return cs
 }
